@@ -236,6 +236,8 @@ ITEM_KINDS = {
     "right=colon": ("RCOL", "", "1.5", "descr: with colon"),
 }
 DUP_KINDS = ("dup-first", "dup-last", "dup-last-x3", "dup-NULL")
+# a duplicated mnemonic whose FIRST occurrence carries the widest unit+value text of the section
+WIDE_KINDS = ("widest-first-of-two",)
 SECTIONS = ("V", "W", "C", "P")
 
 
@@ -246,6 +248,9 @@ def all_mutations():
             if k == "dup-NULL" and sec != "W":
                 continue
             out.append({"kind": k, "section": sec})
+        for k in WIDE_KINDS:
+            if sec != "V":
+                out.append({"kind": k, "section": sec})
         for k in ITEM_KINDS:
             out.append({"kind": k, "section": sec})
     return out
@@ -290,6 +295,10 @@ def mutate(text, mut):
             src, n = cand[0], 1
         new = [lines[src]] * n
         at = src + 1
+    elif k in WIDE_KINDS:
+        new = ["WDUP.K/M3   45 350 01 00 99 7 the widest text of this section 0123456789 0123456789 0123456789 : first of two",
+               "WDUP.K/M3   1 : second of two"]
+        at = start + 1
     else:
         m, u, left, right = ITEM_KINDS[k]
         new = ["%s.%s %s : %s" % (m, u, left, right)]
